@@ -6,6 +6,7 @@ sanitizers run on exactly those two points.
 """
 import hashlib
 import json
+import os
 import traceback
 from collections import Counter
 
@@ -79,7 +80,9 @@ class Ctx:
         self.case = None
         self.case_features = {}
         self.no_alias_check = False  # set per call for copy=False style requests
-        self.max_keep = 400
+        self.max_keep = int(os.environ.get("PVM_MAX_KEEP", "400"))
+        self.triage = bool(os.environ.get("PVM_TRIAGE"))
+        self.passes = Counter()
 
     # ---- bookkeeping -------------------------------------------------------------
     def begin(self, case):
@@ -116,6 +119,10 @@ class Ctx:
             detail = detail()
         if not cond:
             self.fail(op, symptom, detail, **features)
+        elif self.triage:
+            f = dict(self.case_features)
+            f.update(features)
+            self.passes[op + "|" + json.dumps(jsonable(f), sort_keys=True)] += 1
         return bool(cond)
 
     # ---- the boundary ------------------------------------------------------------
